@@ -4,6 +4,8 @@
 //!
 //! case line:  pool <op> / <op> / ...
 //!             pair <i,j,k,...> <op> / <op> / ...     (indices of the entries to compare pairwise)
+//!             wpair <i,j,k,...> <op> / <op> / ...    (Value::to_word on the selected entries: n+1 | 0 each,
+//!                                                     then ==, cmp, hash of all ordered pairs of the Words)
 //! ops (each appends one entry to the pool):
 //!   unit | wi <k> <n> | wb <k> <hex> | ba <hex> | buf <n> <hex>
 //!   left <i> <T> | right <T> <i> | prod <i> <j> | none <T> | some <i> | zero <T>
@@ -12,6 +14,8 @@
 //!   prune <i> <T>
 //!   mach <k> <w> <L|R> <j|-> <u>                     (Bit Machine output, stale frame cells as padding)
 //!   machw <i>                                        (Bit Machine output of a witness node holding pool[i])
+//!   ctx8 <hex32> <count> <hex>                       (Value::ctx8(midstate, bytes_hashed, buffer))
+//!   isty <i> <T>                                     (pool[i] again; extra number: is_of_type(T))
 //! types T in prefix notation without spaces: 1 unit, +ab sum, *ab product, w<hexdigit k> = 2^(2^k)
 use crate::util::*;
 
@@ -312,6 +316,19 @@ fn run_op(pool: &[Entry], t: &[&str]) -> (Entry, Vec<u128>) {
             let v = operand!(t[1]);
             (Ok(mach_witness(&v)), vec![])
         }
+        "ctx8" => {
+            let mut mid = [0u8; 32];
+            mid.copy_from_slice(&unhex(t[1]));
+            match Value::ctx8(mid, t[2].parse().unwrap(), &unhex(t[3])) {
+                Ok(v) => (Ok(v), vec![]),
+                Err(_) => (Err(3), vec![]),
+            }
+        }
+        "isty" => {
+            let v = operand!(t[1]);
+            let r = v.is_of_type(&ty_of(t[2]));
+            (Ok(v), vec![r as u128])
+        }
         _ => panic!("unknown op"),
     }
 }
@@ -358,6 +375,29 @@ fn obs_pair(a: &Value, b: &Value, out: &mut Vec<u128>) {
     out.push((h(a) == h(b)) as u128);
 }
 
+fn hw(w: &Word) -> u64 {
+    let mut s = DefaultHasher::new();
+    w.hash(&mut s);
+    s.finish()
+}
+
+/// the derived traits of `Word` on one ordered pair
+fn obs_wpair(a: &Word, b: &Word, out: &mut Vec<u128>) {
+    out.push((a == b) as u128);
+    let c = a.cmp(b);
+    if a.as_value().ty() == b.as_value().ty() {
+        out.push(match c {
+            Ordering::Less => 0,
+            Ordering::Equal => 1,
+            Ordering::Greater => 2,
+        });
+    } else {
+        let tc = a.as_value().ty().cmp(b.as_value().ty());
+        out.push(if c == tc && c != Ordering::Equal && a.partial_cmp(b) == Some(c) { 3 } else { 5 });
+    }
+    out.push((hw(a) == hw(b)) as u128);
+}
+
 pub fn run(t: &[&str]) -> String {
     match guarded(|| run_inner(t)) {
         Some(v) => join(&v),
@@ -369,7 +409,7 @@ fn run_inner(t: &[&str]) -> Vec<u128> {
     let kind = t[0];
     let mut pool: Vec<Entry> = vec![];
     let mut out: Vec<u128> = vec![];
-    let first_op = if kind == "pair" { 2 } else { 1 };
+    let first_op = if kind == "pair" || kind == "wpair" { 2 } else { 1 };
     for op in t[first_op..].split(|x| *x == "/") {
         if op.is_empty() {
             continue;
@@ -402,6 +442,28 @@ fn run_inner(t: &[&str]) -> Vec<u128> {
             for a in &sel {
                 for b in &sel {
                     obs_pair(a, b, &mut out);
+                }
+            }
+        }
+        "wpair" => {
+            let sel: Vec<&Value> = t[1]
+                .split(',')
+                .filter(|s| !s.is_empty())
+                .filter_map(|s| pool.get(s.parse::<usize>().expect("sel")).and_then(|e| e.as_ref().ok()))
+                .collect();
+            let mut words: Vec<Word> = vec![];
+            for v in &sel {
+                match v.to_word() {
+                    Some(w) => {
+                        out.push(w.n() as u128 + 1);
+                        words.push(w);
+                    }
+                    None => out.push(0),
+                }
+            }
+            for a in &words {
+                for b in &words {
+                    obs_wpair(a, b, &mut out);
                 }
             }
         }
